@@ -24,7 +24,7 @@ def build_variant(variant):
         return vlib.build_tpdrv()
     raise ValueError(variant)
 
-EXEC_SOURCES = tuple(s for s in ("exec.c", "ops_table.c", "ops_codec.c", "ops_merger.c", "ops_sorter.c", "ops_fileset.c", "ops_misc.c", "ops_mt.c")
+EXEC_SOURCES = tuple(s for s in ("exec.c", "ops_table.c", "ops_codec.c", "ops_merger.c", "ops_sorter.c", "ops_fileset.c", "ops_misc.c", "ops_mt.c", "ops_res.c")
                      if os.path.exists(os.path.join(vlib.HARNESS, s)))
 
 
@@ -53,6 +53,9 @@ class Family:
         return len(lines) > 3
     def keep_prefix(self, lines):
         return 0
+    def valid(self, lines):
+        """is this (shrunk) script still a well-formed case of the family?"""
+        return True
     def corpus(self, pid):
         d = os.path.join(vlib.VERIF, "corpus", pid)
         out = []
@@ -1167,3 +1170,220 @@ reg("C14", ["tp", "mt"], "static: the access sites of mtbl/threadpool.c (struct,
      "the machine has one caller and one result handler; several callers sharing a pool, the writer/sorter field partition and reader immutability are covered at run time by ThreadSanitizer only (partial)",
      "a critical section is one atomic step of the machine"],
     generated=["AccessSites"], variants=["sched", "tsan"], max_s={"quick": 100, "thorough": 1500})
+
+
+# ------------------------------------------------------------------ resource ledger (C18)
+class ResGen:
+    """well-formed API life-cycle histories: every object is destroyed exactly once, dependents first"""
+    def __init__(self, rng, stats):
+        self.rng, self.stats = rng, stats
+        self.lines = []; self.objs = {}; self.deps = {}; self.next_id = 0
+        self.tables = {}; self.setfiles = {}
+    def new_id(self):
+        i = self.next_id; self.next_id += 1; return i
+    def emit(self, l):
+        self.lines.append(l)
+    def users(self, i):
+        return [j for j, d in self.deps.items() if i in d and j in self.objs]
+    def destroy(self, i):
+        for j in self.users(i):
+            self.destroy(j)
+        if i in self.objs:
+            self.emit("res.destroy %d" % i); del self.objs[i]; self.deps.pop(i, None)
+            self.stats.bump("res_destroy")
+    def sources(self):
+        return [i for i, o in self.objs.items() if o["k"] in ("reader", "merger", "fileset") and o.get("ok", True)]
+    def gen(self, nops):
+        rng = self.rng
+        nt = rng.pick([2, 3, 4])
+        for t in range(nt):
+            if rng.chance(1, 6):
+                self.emit("res.bad %d" % t); self.tables[t] = "bad"
+            else:
+                self.emit("res.table %d %d %d %d" % (t, rng.pick([0, 1, 5, 20, 60]), rng.pick([1, 2, 3]), rng.below(3))); self.tables[t] = "table"
+        self.emit("res.setfile 0 %s" % ",".join(str(t) for t in range(nt) if rng.chance(2, 3)) or "-")
+        if self.lines[-1].endswith(" "):
+            self.lines[-1] += "-"
+        for _ in range(nops):
+            self.op()
+            if rng.chance(1, 4) and not any(o["k"] == "sorter" and o.get("pooled") and o.get("unsynced") for o in self.objs.values()):
+                self.emit("res.count")
+        # abandon everything in a random legal order
+        order = list(self.objs)
+        for a in range(len(order) - 1, 0, -1):
+            b = rng.below(a + 1); order[a], order[b] = order[b], order[a]
+        for i in order:
+            self.destroy(i)
+        return self.lines
+    def op(self):
+        rng = self.rng
+        kind = rng.pick(["reader", "reader", "iter", "iter", "use", "use", "merger", "sorter", "sadd", "sadd", "sadd", "siter", "swrite", "writer", "wadd",
+                         "fileset", "fsdup", "fsreload", "setfile", "pool", "destroy", "destroy"])
+        self.stats.bump("res_op_" + kind)
+        if kind == "reader":
+            i = self.new_id(); t = rng.pick(list(self.tables))
+            self.emit("res.reader %d %d" % (i, t)); self.objs[i] = {"k": "reader", "ok": self.tables[t] == "table"}; self.deps[i] = []
+            if self.tables[t] != "table":
+                self.stats.bump("res_reader_not_a_table")
+        elif kind == "pool":
+            if sum(1 for o in self.objs.values() if o["k"] == "pool") < 2:
+                i = self.new_id(); self.emit("res.pool %d %d" % (i, rng.pick([1, 2, 4]))); self.objs[i] = {"k": "pool"}; self.deps[i] = []
+        elif kind == "merger":
+            srcs = [x for x in self.sources() if rng.chance(1, 2)][:4]
+            i = self.new_id(); fail = rng.chance(1, 5)
+            self.emit("res.merger %d %s %s" % (i, "fail%d" % rng.below(10) if fail else "cat", ",".join(map(str, srcs)) or "-"))
+            self.objs[i] = {"k": "merger"}; self.deps[i] = list(srcs)
+        elif kind == "iter":
+            srcs = self.sources()
+            if srcs:
+                src = rng.pick(srcs); i = self.new_id(); k = rng.pick(["iter", "get", "pfx", "range"])
+                a = "" if k == "iter" else " %d" % rng.below(70) if k != "range" else " %d %d" % (rng.below(40), rng.below(70))
+                self.emit("res.iter %d %d %s%s" % (i, src, k, a)); self.objs[i] = {"k": "iter"}; self.deps[i] = [src]
+                if self.objs[src]["k"] == "fileset":
+                    self.objs[i]["set"] = self.objs[src]["set"]
+        elif kind == "use":
+            its = [i for i, o in self.objs.items() if o["k"] == "iter"]
+            if its:
+                i = rng.pick(its)
+                if self.objs[i].get("sorter_failkey"):
+                    return
+                self.emit(rng.pick(["res.next %d %d" % (i, rng.pick([1, 3, 100])), "res.seek %d %d" % (i, rng.below(70))]))
+        elif kind == "sorter":
+            pools = [i for i, o in self.objs.items() if o["k"] == "pool"]
+            pool = rng.pick(pools) if pools and rng.chance(1, 2) else None
+            i = self.new_id(); fail = rng.chance(1, 4); fk = rng.below(6); mem = rng.pick([64, 100, 150, 300, 100000])
+            self.emit("res.sorter %d mem=%d pool=%s merge=%s eo=$i.eo" % (i, mem, "-" if pool is None else str(pool), "fail%d" % fk if fail else "cat"))
+            self.objs[i] = {"k": "sorter", "mem": mem, "pooled": pool is not None, "fk": fk if fail else None, "keys": [], "failed": False, "iterating": False, "unsynced": False}
+            self.deps[i] = [pool] if pool is not None else []
+            self.stats.bump("res_sorter_pooled" if pool is not None else "res_sorter_unpooled")
+        elif kind == "sadd":
+            ss = [i for i, o in self.objs.items() if o["k"] == "sorter"]
+            if ss:
+                i = rng.pick(ss); o = self.objs[i]; key = rng.below(6) if o["fk"] is not None else rng.below(40)
+                self.emit("res.sadd %d %d %d" % (i, key, rng.pick([0, 5, 30])))
+                if not o["iterating"]:
+                    o["keys"].append(key)
+                    if o["pooled"]:
+                        o["unsynced"] = True
+        elif kind in ("siter", "swrite"):
+            ss = [i for i, o in self.objs.items() if o["k"] == "sorter"]
+            if ss:
+                i = rng.pick(ss); o = self.objs[i]
+                # a sorter whose merge callback may have failed inside a pooled chunk cannot be iterated (the library asserts on
+                # the NULL chunk reader): such sorters are only destroyed.  Unpooled: a failed add is reported, then only destroy.
+                risky = o["fk"] is not None and o["keys"].count(o["fk"]) >= 2
+                if risky:
+                    # unpooled and nothing spilled yet (memory limit never reached): the final flush inside mtbl_sorter_iter reports
+                    # the failing callback as a NULL iterator
+                    if o["pooled"] or o["mem"] != 100000 or o["iterating"] or o.get("tried") or kind != "siter":
+                        return
+                    o["tried"] = True
+                    j = self.new_id(); self.emit("res.siter %d %d" % (j, i)); self.objs[j] = {"k": "iter", "sorter_failkey": True}; self.deps[j] = [i]
+                    self.stats.bump("res_siter_null_after_failed_merge")
+                    return
+                if kind == "siter":
+                    j = self.new_id(); self.emit("res.siter %d %d" % (j, i)); self.objs[j] = {"k": "iter"}; self.deps[j] = [i]
+                    o["iterating"] = True; o["unsynced"] = False
+                else:
+                    w = self.new_id(); self.emit("res.writer %d 9" % w); self.objs[w] = {"k": "writer", "closed_for_adds": True}; self.deps[w] = []
+                    self.emit("res.swrite %d %d" % (i, w))
+                    if not o["iterating"]:
+                        o["iterating"] = True; o["unsynced"] = False
+        elif kind == "writer":
+            i = self.new_id(); self.emit("res.writer %d 8" % i); self.objs[i] = {"k": "writer"}; self.deps[i] = []
+        elif kind == "wadd":
+            ws = [i for i, o in self.objs.items() if o["k"] == "writer" and not o.get("closed_for_adds")]
+            if ws:
+                i = rng.pick(ws); self.emit("res.wadd %d %d %d" % (i, rng.below(60), rng.pick([0, 10, 100])))
+        elif kind == "fileset":
+            if sum(1 for o in self.objs.values() if o["k"] == "fileset") < 3:
+                i = self.new_id(); self.emit("res.fileset %d 0" % i); self.objs[i] = {"k": "fileset", "set": i}; self.deps[i] = []
+        elif kind == "fsdup":
+            fs = [i for i, o in self.objs.items() if o["k"] == "fileset"]
+            if fs:
+                o = rng.pick(fs); i = self.new_id(); self.emit("res.fsdup %d %d" % (i, o)); self.objs[i] = {"k": "fileset", "set": self.objs[o]["set"]}; self.deps[i] = []
+        elif kind == "fsreload":
+            fs = [i for i, o in self.objs.items() if o["k"] == "fileset"]
+            if fs:
+                self.emit("res.fsreload %d" % rng.pick(fs))
+        elif kind == "setfile":
+            self.emit("res.setfile 0 %s" % (",".join(str(t) for t in self.tables if rng.chance(1, 2)) or "-"))
+        elif kind == "destroy":
+            if self.objs:
+                self.destroy(rng.pick(list(self.objs)))
+
+
+class ResFamily(Family):
+    name = "res"
+    def cases(self, pid, seed, tier, mult, stats):
+        for c in self.corpus(pid):
+            yield c
+        for i in range(budget(tier, 150, 3000, mult)):
+            rng = Rng(seed * 49979687 + i * 31 + 3)
+            g = ResGen(rng, stats)
+            hist = g.gen(rng.pick([4, 8, 15, 30]))
+            lines = ["@i sys.info", "res.begin"] + hist + ["res.end warm", "res.begin"] + hist + ["res.end"]
+            yield ("res:%d:%d" % (seed, i), lines)
+    def oracle(self, res):
+        fails = []
+        for i, r in enumerate(res):
+            real = r["real"]; op = r["req"].split(" ")[0]
+            if real in ("asan", "abort", "tsan") or real.startswith("crash") or real.startswith("exit:"):
+                fails.append(("C18", "%s died: %s %s" % (r["req"][:60], real, r.get("stderr", "")[-400:].replace("\n", " | ")), i)); break
+            if op == "res.end":
+                f = dict(x.split("=") for x in real.split(" ") if "=" in x)
+                if f.get("fds") != "+0" or f.get("maps") != "+0" or f.get("tmp") != "0" or (f.get("heap") != "+0" and r["req"] == "res.end"):
+                    side = " ".join(r.get("side", []))
+                    fails.append(("C18", "after every object was destroyed the process still holds: %s %s" % (real, side), i))
+        return fails
+    def tie_props(self, res, idx):
+        return {"C18"}
+    def valid(self, lines):
+        # a well-formed history: both passes present, every object created is destroyed, nothing is used after its destruction
+        if sum(1 for l in lines if l.startswith("res.begin")) != 2 or sum(1 for l in lines if l.startswith("res.end")) != 2:
+            return False
+        live = {}
+        for l in lines:
+            t = l.split(" "); op = t[0]
+            if op == "res.begin":
+                if live:
+                    return False
+            elif op in ("res.pool", "res.writer", "res.reader", "res.merger", "res.sorter", "res.siter", "res.fileset", "res.fsdup", "res.iter"):
+                if t[1] in live:
+                    return False
+                deps = []
+                if op == "res.merger":
+                    deps = [] if t[3] == "-" else t[3].split(",")
+                elif op in ("res.siter", "res.fsdup", "res.iter"):
+                    deps = [t[2]]
+                elif op == "res.sorter":
+                    deps = [a[5:] for a in t if a.startswith("pool=") and a != "pool=-"]
+                if any(d not in live for d in deps):
+                    return False
+                live[t[1]] = deps
+            elif op == "res.destroy":
+                if t[1] not in live or any(t[1] in d for d in live.values()):
+                    return False
+                del live[t[1]]
+            elif op in ("res.wadd", "res.sadd", "res.next", "res.seek", "res.fsreload"):
+                if t[1] not in live:
+                    return False
+            elif op == "res.swrite":
+                if t[1] not in live or t[2] not in live:
+                    return False
+            elif op == "res.end":
+                if live:
+                    return False
+        return True
+    def nontrivial(self, pid, lines, res):
+        return sum(1 for l in lines if l.startswith("res.destroy")) >= 6
+    def keep_prefix(self, lines):
+        return 2
+
+FAMILIES["res"] = ResFamily
+
+reg("C18", ["res"], "well-formed API life-cycle histories (4..30 requests, each run twice in one process: a warm-up pass, then the measured pass) over writers (incl. refused adds), readers (incl. files that are not tables), iterators of all four kinds on readers / mergers / filesets (abandoned undrained or drained), mergers over readers, filesets and other mergers (incl. a failing merge callback), sorters with memory limits from one entry per chunk to no spill, unpooled and on shared pools (destroyed before iteration, after iteration, with chunk jobs in flight), mtbl_sorter_write, a merge callback failing inside a chunk or in the final flush, filesets with dup / reload_now / setfile rewrites, thread pools; objects destroyed in a random legal order at random points; "
+    "after every request (outside windows with pooled chunk jobs in flight) open descriptors (/proc/self/fd), live reader mappings (mmap shim counter) and files in the sorter's temp directory are compared with the ledger machine; at the end of the history all four must be back at the baseline, heap measured with AddressSanitizer's allocator statistics; non-trivial = at least 6 destroys",
+    ["heap is tied only at the end of a history (zero / not zero): allocation counts per request depend on vector growth and are not compared (partial)",
+     "descriptor / mapping / temp-file effects of open, dup, close, mmap, mkstemp, unlink are OS contracts",
+     "a sorter whose merge callback failed inside a pooled chunk is only destroyed, not iterated (the library asserts on the NULL chunk reader: outside this property)"])
